@@ -228,11 +228,20 @@ def t_module_state(h):
                         visit([x for x in ast.iter_child_nodes(st) if isinstance(x, ast.stmt)])
                         for hd in getattr(st, 'handlers', []):
                             visit(hd.body)
-                    if isinstance(st, (ast.Assign, ast.AnnAssign)) and st.value is not None and not _immutable(st.value):
+                    if isinstance(st, (ast.Assign, ast.AnnAssign)) and st.value is not None:
                         tg = st.targets[0] if isinstance(st, ast.Assign) else st.target
                         if isinstance(tg, ast.Name):
-                            names.append(tg.id)
+                            (names if not _immutable(st.value) else rebound).append(tg.id)
+            rebound = []
             visit(tree.body)
+            # a module-level name with an immutable initial value is state as soon as a function rebinds it through `global`
+            for nm in rebound:
+                if f'{mod}.{nm}' in K.MODULE_STATE:
+                    continue
+                for fn in ast.walk(tree):
+                    if isinstance(fn, (ast.FunctionDef, ast.AsyncFunctionDef)) and any(isinstance(n, ast.Global) and nm in n.names for n in ast.walk(fn)):
+                        unknown.append(f'{mod}.{nm} (rebound through global in {fn.name})')
+                        break
             for nm in names:
                 if f'{mod}.{nm}' in K.MODULE_STATE:
                     continue
@@ -307,7 +316,8 @@ def t_prologue(with_warmup):
         ov['jesse.config.reset_config'] = stub('reset_config')
         ov['jesse.services.validators.validate_routes'] = stub('validate_routes')
         ov['jesse.services.candle.inject_warmup_candles_to_store'] = stub('inject_warmup')
-        ov['jesse.modes.backtest_mode.simulator'] = lambda i, a, k: (calls.append(('simulator', tuple(a), dict(k))), {'metrics': {'total': 0}})[1]
+        # the simulator may report more than this call asked for (it does when an earlier session left the debug mode on)
+        ov['jesse.modes.backtest_mode.simulator'] = lambda i, a, k: (calls.append(('simulator', tuple(a), dict(k))), {'metrics': {'total': 0}, 'logs': 'storage/logs/some-session.txt', 'tradingview': 'tv', 'csv': 'c', 'json': 'j', 'equity_curve': 'e', 'hyperparameters': 'h'})[1]
         router = Obj(None, {'initiate': Builtin('router.initiate', stub('router.initiate'))}, name='router')
         cstate = Obj(None, {'init_storage': Builtin('init_storage', stub('init_storage'))})
         store = Obj(None, {'candles': cstate, 'reset': Builtin('store.reset', stub('store.reset'))}, name='store')
@@ -342,6 +352,9 @@ def t_prologue(with_warmup):
         h.prove(before == K.PROLOGUE, 'prologue.session-state-is-established-from-the-arguments-before-simulating', {'calls': names})
         h.prove(names[isim + 1:] == K.EPILOGUE, 'prologue.config-and-store-are-reset-afterwards', {'calls': names})
         h.prove(jc['app']['trading_mode'] == 'backtest', 'prologue.trading-mode-set')
+        r = out.value
+        h.prove(isinstance(r, dict) and sorted(r) == ['logs', 'metrics'] and r['logs'] is None,
+                'prologue.outputs-that-were-not-requested-are-not-reported', {'keys': sorted(r) if isinstance(r, dict) else None})
         sc = calls[names.index('set_config')][1][0]
         e = sc['exchanges']['Sandbox']
         h.prove(ops.land(ops.land(ops.equal(e['balance'], cfg['starting_balance']), ops.equal(e['fee'], cfg['fee'])),
